@@ -271,6 +271,7 @@ pub struct Mon {
     cur_failed: bool,
     cur_obs: Option<String>,
     cur_sampled: bool,
+    cur_label: &'static str,
     // statistics
     pub generated: u64,
     pub evaluations: u64,
@@ -376,6 +377,7 @@ impl Mon {
             cur_failed: false,
             cur_obs: None,
             cur_sampled: false,
+            cur_label: "",
             generated: 0,
             evaluations: 0,
             nontrivial_evals: 0,
@@ -515,11 +517,14 @@ impl Mon {
         self.cur_nontrivial = true;
         self.cur_failed = false;
         self.cur_obs = None;
+        self.cur_label = "";
         self.evaluations += 1;
         self.cur_sampled = !self.sampled_ops.contains(op)
             || (self.evaluations.is_power_of_two() && self.evaluations >= 1024);
+        // per-call loop counters always start at zero, or the cap would count
+        // iterations of the whole process
+        hooks::reset_ticks();
         if self.use_hooks {
-            hooks::reset_ticks();
             let s = hooks::snapshot();
             self.hook_start.copy_from_slice(&s);
         }
@@ -613,6 +618,20 @@ impl Mon {
         }
     }
 
+    /// Name the entry point about to be called; it becomes part of the
+    /// signature of an unexpected panic (`panic|<label>|<file>`).
+    pub fn label(&mut self, l: &'static str) {
+        self.cur_label = l;
+    }
+
+    /// `label` + `must`.
+    pub fn must_in<T>(&mut self, l: &'static str, f: impl FnOnce() -> T) -> Option<T> {
+        self.cur_label = l;
+        let r = self.must(f);
+        self.cur_label = "";
+        r
+    }
+
     /// The real call must not panic; returns the value if it did not.
     pub fn must<T>(&mut self, f: impl FnOnce() -> T) -> Option<T> {
         match self.call(f) {
@@ -627,8 +646,10 @@ impl Mon {
     pub fn unexpected_panic(&mut self, p: &Panic) {
         let kind = if p.msg.starts_with(hooks::LOOP_CAP_MESSAGE) {
             format!("nontermination|{}", &p.msg[hooks::LOOP_CAP_MESSAGE.len()..])
-        } else {
+        } else if self.cur_label.is_empty() {
             format!("panic|{}", short_file(&p.file))
+        } else {
+            format!("panic|{}|{}", self.cur_label, short_file(&p.file))
         };
         self.fail(&kind, "no panic", &format!("panic: {} at {}:{}", p.msg, p.file, p.line));
     }
